@@ -24,7 +24,7 @@ REQUIRED_THEOREMS = ["Gv.Props.C14." + n for n in [
     "numGapsUniqueProf_eq_spec", "numMutationsUniqueProf_eq_spec", "numGapsUniqueProf_first_eq_nil"]] + [
     # Pssm over the reals (Model/Pssm.lean, generic in the numeric type; Mathlib-importing module)
     "Gv.Props.C14Pssm." + n for n in [
-    "pssm_panic_iff", "pssm_err_iff", "pssm_shape", "pssm_counts", "pssm_freq", "pssm_freq_column_sum",
+    "pssm_no_panic", "pssm_empty_is_error", "pssm_err_iff", "pssm_err_iff_all", "pssm_shape", "pssm_counts", "pssm_freq", "pssm_freq_column_sum",
     "pssm_freq_column_sums_to_one", "pssm_freq_column_sum_one_iff", "pssm_freq_column_with_gap_sums_below_one",
     "pssm_unif", "pssm_data", "pssm_logo", "pssm_log"]]
 LEVEL_TEXT = ("Lean theorems: MaxCharStats' selection loop returns the same result for EVERY iteration order of the count entries "
@@ -58,8 +58,10 @@ PARTIAL = ["Entropy: the occurrence counts, the summation order and the error/Na
            "Pssm divides by the number of sequences: a frequency-normalised column that holds a gap / N / X / other symbol sums to "
            "LESS than 1 (pssm_freq_column_with_gap_sums_below_one, pssm_freq_column_sum_one_iff); a negative pseudo-count enters the "
            "denominators but is not added to the cells (model = code; theorems state it through `added`)",
-           "Pssm on an alignment without sequences is a run-time panic (makeslice with length -1; pssm_panic_iff): not generated by "
-           "the quick/thorough generators; replay: `pssm<TAB>1<TAB>_<TAB>0<TAB>0<TAB>1<TAB>1` -> verdict fail:pssm-crash",
+           "Pssm on an alignment without sequences was a run-time panic (makeslice with length -1): repaired "
+           "(proposed_fixes/c14-pssm-empty-alignment.diff: an error), the model follows the repaired code (pssm_no_panic, "
+           "pssm_empty_is_error, pssm_err_iff_all); the witness `pssm 1 _ 0 0 1 1` is in corpus/C14 and in the generator "
+           "(tag pssm-empty): on a tree without the guard the check fails on it with verdict fail:pssm-crash",
            "the model is stated for ASCII residues: CharStats / InformativeSites index 130-entry slices with unicode.ToUpper(rune) "
            "(bytes >= 130 panic in Go; only NumMutationsUniquePerSequence models that panic explicitly)",
            "CountDifferences on an alignment without sequences and CountProfile.CountsAt(len) were run-time panics: repaired "
@@ -140,6 +142,8 @@ def _gen_core(rng, tier):
     yield Case("uniques", [1, "_"], False, "uniques-empty")
     yield Case("sitecounts", [1, "_"], False, "sitecounts-empty")
     yield Case("charstats", [1, "_"], False, "charstats-empty")
+    for nm in (0, 1, 2, 3, 4, 7):
+        yield Case("pssm", [rng.choice([0, 1]), "_", rng.randint(0, 1), rng.choice(["0", "1/2"]), nm, 3], False, "pssm-empty")
     for a in range(0, 17):
         for b in range(0, 17):
             yield Case("compat", [a, b], True, "compat")
